@@ -136,8 +136,12 @@ fn run_vectors(path: &str, out: &str) {
         let before = r.mism;
         for p in Proto::ALL {
             let exp = expected(v, p);
-            for k in BufKind::ALL {
+            // a value with a large payload goes through every API variant (zero-copy capable or not)
+            let offsets: &[usize] = if v.bin.len() > 3000 { &[0, 1] } else { &[0] };
+            for (k, off) in BufKind::ALL.iter().flat_map(|k| offsets.iter().map(move |o| (*k, *o))) {
+                MODE_OFFSET.store(off, std::sync::atomic::Ordering::SeqCst);
                 let e = encode_seq(p, k, std::slice::from_ref(&v.v), false, true);
+                MODE_OFFSET.store(0, std::sync::atomic::Ordering::SeqCst);
                 let (pn, kn) = (p.name(), k.name());
                 if let Some(err) = &e.err {
                     r.bad(v.id, pn, kn, "enc-err", json!(err));
